@@ -13,6 +13,11 @@
 //	new seq <Type> <iters>                 1-2 writers running scripted/random SEQUENCES of the mutating
 //	                                       methods (delete-tail-then-append, fill-then-drain, …), readers
 //	                                       running every read-only method incl. boundary variants
+//	new matrix <Type> <M1,M2,...>          the methods of the type the pair matrix goes through (checked to exist on the
+//	                                       instance); the driver (model mode) compares the list with the public
+//	                                       entries of the regenerated access table: a public method the matrix never
+//	                                       exercises is a broken obligation
+//	new types <T1,T2,...>                  the types the matrix covers (same comparison, per type)
 //	new directed <Type> <M1> <M2> <iters>  (directed search, emitted by checklib/props/C15.py when the
 //	                                       access-table obligation breaks) all variants of one method
 //	                                       against sequences "other mutators as preparation, then the other"
@@ -618,6 +623,17 @@ func runWorkers(fns []op, iters int) {
 
 func one(c string) int {
 	ws := strings.Fields(c)
+	if len(ws) == 2 && ws[0] == "types" {
+		var names []string
+		for _, t := range types() {
+			names = append(names, t.name)
+		}
+		if strings.Join(names, ",") != ws[1] {
+			fmt.Fprintln(os.Stderr, "bad case (not the type list of this harness):", c)
+			return 4
+		}
+		return 0
+	}
 	if len(ws) < 3 {
 		fmt.Fprintln(os.Stderr, "bad case:", c)
 		return 4
@@ -643,6 +659,22 @@ func one(c string) int {
 	}()
 	rounds := 3
 	switch ws[0] {
+	case "matrix":
+		// the listed methods are exactly the ones the pair matrix of this type goes through, and each exists
+		if len(ws) != 3 || ws[2] != strings.Join(t.methods, ",") {
+			fmt.Fprintln(os.Stderr, "bad case (not the method list of this harness):", c)
+			return 4
+		}
+		in := t.mk("", "")
+		for _, m := range t.methods {
+			if in.ops[m] == nil {
+				fmt.Fprintln(os.Stderr, "unknown method in:", c)
+				return 4
+			}
+		}
+		if in.close != nil {
+			in.close()
+		}
 	case "pair":
 		if len(ws) != 5 {
 			fmt.Fprintln(os.Stderr, "bad case:", c)
@@ -777,7 +809,13 @@ func gen(tier, out string) {
 			iters = v
 		}
 	}
+	var names []string
 	for _, t := range types() {
+		names = append(names, t.name)
+	}
+	o.Line("new types %s", strings.Join(names, ","))
+	for _, t := range types() {
+		o.Line("new matrix %s %s", t.name, strings.Join(t.methods, ","))
 		for i, m1 := range t.methods {
 			for _, m2 := range t.methods[i:] {
 				o.Line("new pair %s %s %s %d", t.name, m1, m2, iters)
@@ -982,6 +1020,10 @@ func run(opsPath, outPath, statsPath string) {
 	slowest := 0.0
 	nontrivial := 0
 	for i, c := range cases {
+		if !withRace && results[i].obs == "clean" {
+			// without the race detector a clean run says nothing: never report it as `clean`
+			results[i].obs = "panic:race-detector-unavailable"
+		}
 		o.Line("%s => %s", c, results[i].obs)
 		k := results[i].obs
 		if j := strings.Index(k, ":"); j >= 0 {
